@@ -24,6 +24,7 @@ package main
 // for header-only PDUs.
 
 import (
+	"bytes"
 	"encoding/binary"
 	"errors"
 	"net"
@@ -40,6 +41,8 @@ type WriteRec struct {
 	Seq      int32  // sequence_number when the call carried at least a header
 	Full     bool   // the call carried exactly one complete frame (command_length == len)
 	ByReader bool   // written by the goroutine that reads (Watch): a generic_nack
+	Changed  bool   // the caller's buffer no longer held these octets when the Write call returned
+	Final    []byte // what it held then (a transport may read the buffer at any time before it returns)
 	gate     chan struct{}
 	held     bool
 }
@@ -178,6 +181,13 @@ func (t *Transport) Write(p []byte) (int, error) {
 	t.mu.Unlock()
 	if gate != nil {
 		<-gate
+	}
+	// net.Conn may read p at any moment until Write returns: the buffer must still hold the frame
+	if !bytes.Equal(p, data) {
+		final := append([]byte(nil), p...)
+		t.mu.Lock()
+		rec.Changed, rec.Final = true, final
+		t.mu.Unlock()
 	}
 	return len(p), nil
 }
